@@ -6,7 +6,8 @@
    Hooks complete at once (the addon assigns message.stream in the headers hook), connects succeed at once.
    d = "req" | "resp".  Body bytes of a message are ids 1..n in order of arrival.
      mode[d]  = client_state / server_state: "none" "wait" "consume" "stream" "done" "errored"
-     strm[d]  = message.stream: "off" | "true" | callable kind
+     strm[d]  = message.stream: "off" | "true" | callable kind (bytes-returning ident/double/swallow/atend, or the
+                generators gen = identity and dblgen = doubling, which return a one-shot iterator of pieces)
      buf[d]   = len(request_body_buf) / len(response_body_buf)
      got[d]   = body bytes received so far; decl[d] = Content-Length or -1 (chunked)
      acc[d]   = bytes an "atend" callable is holding back
@@ -63,7 +64,7 @@ Abort(w, d, early) ==
 \* state_stream_*_body for one data event
 StreamData(w, d, ids) ==
   LET x == w.strm[d]
-      o == CASE x = "double" -> Dbl(ids) [] x \in {"swallow", "atend"} -> <<>> [] OTHER -> ids
+      o == CASE x \in {"double", "dblgen"} -> Dbl(ids) [] x \in {"swallow", "atend"} -> <<>> [] OTHER -> ids
       w1 == [w EXCEPT !.acc[d] = IF x = "atend" THEN @ + Len(ids) ELSE @,
                       !.buf[d] = IF c.store THEN @ + Len(o) ELSE @]
       w2 == IF EmptyChunkEnds /\ o = <<>> /\ w.decl[d] = -1 THEN [w1 EXCEPT !.term[d] = TRUE] ELSE w1
